@@ -74,7 +74,7 @@ class C11(EngineProp):
     id = "C11"
     rule = (
         "cases = generated workflow programs of every family (fan-out, num_workers 1..4, retries with delays, collect_events re-runs, "
-        "wait_for_event with timeouts, external sends, unhandled events, cancel, workflow timeout, serialize/resume; one in four is a @catch_error "
+        "wait_for_event with timeouts, external sends, unhandled events, cancel, workflow timeout, serialize/resume, a second run continued on the context of the first, ended run (same context object or its to_dict snapshot; the ended run may have left queued or in-flight work behind); one in four is a @catch_error "
         "handler program of the C08 family with recovery budgets) on generated "
         "schedules. After EVERY tick the live BrokerState is compared (queues with attempts/recovery counts/last exception, running "
         "work with worker ids and its shared snapshot, collected events, waiters with resolved/timed-out flags, running flag; timestamps "
@@ -104,6 +104,15 @@ class C11(EngineProp):
                 spec["timeout"] = None
             return spec
 
+        def cont(pair):
+            # a second run on the context of the first, ended one (workflow.run(ctx=handler.ctx) / Context.from_dict of the ended
+            # run's snapshot): the init state is "not running" but may still carry the work the first run left behind
+            spec, c = pair
+            if c is not None and spec.get("snap") is None:
+                spec = dict(spec)
+                spec["cont"] = c
+            return spec
+
         from .c08 import C08
 
         def snap(pair):
@@ -114,7 +123,7 @@ class C11(EngineProp):
             return spec
 
         handlers = st.tuples(C08().strategy(tier), st.sampled_from([None, None, 0, 1, 2, 3, 5])).map(snap)
-        main = st.tuples(genwf.program_strategy(**self.gen_kwargs), st.integers(0, 3)).map(thin)
+        main = st.tuples(st.tuples(genwf.program_strategy(**self.gen_kwargs), st.integers(0, 3)).map(thin), st.sampled_from([None, None, None, "ctx", "dict"])).map(cont)
         from .c05 import C05
 
         timed = C05().strategy(tier).map(lambda c: {"timed": c})
@@ -246,8 +255,57 @@ class C11(EngineProp):
         rec = genwf.Rec(spec)
         rec.tick_hook = hook
 
+        cont_info: dict = {}
+
         async def main():
-            return await genwf.run_program(spec, rec, probe=False, **run_kw)
+            import asyncio
+
+            await genwf.run_program(spec, rec, probe=False, **run_kw)
+            mode = spec.get("cont") if isinstance(spec, dict) else None
+            if not mode or rec.outcome["kind"] not in ("result", "failed", "timeout"):
+                return rec
+            m = genwf.M()
+            first_outcome = rec.outcome
+            h = rec.handler
+            try:
+                d = h.ctx.to_dict()
+            except Exception as e:  # noqa: BLE001
+                report("handler_snapshot_raised", error=type(e).__name__, detail=str(e)[:120], tick="after_end")
+                return rec
+            cont_info["leftover"] = any(w.get("queue") or w.get("in_progress") for w in d.get("workers", {}).values())
+            rec.segment += 1
+            try:
+                if mode == "dict":
+                    wf2 = genwf.build_workflow(dict(spec, timeout=None), runtime=genwf.make_runtime())
+                    ctx2 = m["Context"].from_dict(wf2, json.loads(json.dumps(d)))
+                else:
+                    wf2, ctx2 = rec.wf, h.ctx
+                h2 = wf2.run(ctx=ctx2, start_event=rec.mk("GStart", "start"), run_id="run-1")
+            except Exception as e:  # noqa: BLE001
+                cont_info["error"] = repr(e)[:160]
+                return rec
+            cont_info["ran"] = True
+            rec.handler = h2
+            consumer = asyncio.create_task(genwf.consume_stream(rec, h2))
+            settle = genwf.fin_time(spec)
+            await asyncio.wait({h2._result_task}, timeout=settle)
+            if not h2._result_task.done():
+                try:
+                    h2.ctx.send_event(rec.mk("Fin", "ext"))
+                except Exception:  # noqa: BLE001
+                    pass
+                await asyncio.wait({h2._result_task}, timeout=settle)
+            await asyncio.wait({consumer}, timeout=5.0)
+            if not consumer.done():
+                consumer.cancel()
+            if not h2._result_task.done():
+                try:
+                    h2._external_adapter.abort()
+                except Exception:  # noqa: BLE001
+                    pass
+            await asyncio.gather(consumer, h2._result_task, return_exceptions=True)
+            rec.outcome = first_outcome
+            return rec
 
         from .. import boot
         from ..boot import Runaway
@@ -274,6 +332,8 @@ class C11(EngineProp):
             r.classes.append("with_collect_rerun")
         if rec.resumed:
             r.classes.append("resumed")
+        if cont_info.get("ran"):
+            r.classes.append("continued_on_ended_context" + ("_with_leftover_work" if cont_info.get("leftover") else ""))
         r.classes.append("outcome_" + rec.outcome["kind"])
         if time_based:
             r.classes.append("time_based_retry_policy")
